@@ -292,8 +292,11 @@ func cmdCheck(args []string) int {
 		"wall_s":      wall,
 		"violations":  violations,
 		"coverage": map[string]interface{}{
-			"obligations":              total,
+			// obligations listed as known findings are reported separately (known_findings_hit)
+			// and are not part of the proof claim
+			"obligations":              total - knownHits,
 			"discharged":               discharged,
+			"obligations_generated":    total,
 			"checker_cmd":              fmt.Sprintf("bin/govc check -prop %s -tier %s  (go/ssa weakest-precondition VCs over /repo's working tree, discharged by z3-new 5.1.0 / cvc5 1.0.3 / z3 4.8.12)", *prop, *tier),
 			"trusted_base":             trustedBase(),
 			"samples":                  samples,
